@@ -184,6 +184,9 @@ def run(ctx):
     rule_path_spelling(ctx)
     ctx.assume("salsa's own memoisation and revision logic are correct; lru=1 re-materialisation is deterministic (C16)")
     ctx.assume("callers announce disk changes through refresh_disk (contract of the session API)")
+    ctx.assume("the file-system NAME SPACE is stable during a session (symlink targets, renamed directories): path identity is computed "
+               "through the file system inside tracked queries (the audited `identity` cut) and is not a tracked input, so a retargeted "
+               "symlink on an import path is not seen until the importer changes; untested candidate of the round-3 seeding agent")
     from . import c17
     c17.rule_registry_atomic(ctx)
     c17.rule_snapshot_shares(ctx)
